@@ -18,6 +18,49 @@ CHECKS = {
              "Two resolver defects are recorded as known findings and identified by call site through a verif-tagged observation point in parseAdd.",
         technique="runtime monitor: recording tracer + declarative relation oracle over BFS-enumerated and sampled executions",
         engine="seqmach", design_ref="5/C02"),
+    "C01": dict(
+        level="exploration",
+        text="Every schema over <=2 states x every mutation history of length 3 (quick) / 4 (thorough) over all op kinds and subsets is executed "
+             "on the real machine; after every step all views (Is1/Not1/Any1, ActiveStates, Tick, Time, Clock, String, StringAll, Inspect, Export) "
+             "are compared with each other and with tick parity, and every traced transition is checked against the documented step rule "
+             "(0/+1/+2, canceled/check = 0, no decrease, chain continuity, time-after = Machine.Time). Sampled 3..6-state schemas run with "
+             "recording handler bindings that veto. Reader stress: 1-8 goroutines take single-call snapshots while 1-3 goroutines mutate, "
+             "with yields at the apply/end schedule points; every snapshot must be an element of the recorded time chain and monotone per reader.",
+        note="Handler faults excluded (statement). Concurrent readers use single-call snapshot views only; multi-call views are compared at quiescence.",
+        technique="runtime monitor: view-agreement + clock-delta oracle over enumerated/sampled histories; snapshot-in-chain oracle under reader stress with schedule-point yields",
+        engine="seqmach", design_ref="5/C01"),
+    "C03": dict(
+        level="exploration",
+        text="Generated (schema, handler bindings, history) cases are run once to enumerate the negotiation handler positions that fire and then once per "
+             "position with a veto there, plus random veto subsets; each mutation is judged from the caller's side (Result vs Time before/after) "
+             "and from its own transition (located by a unique uid): Canceled => nothing moved, Executed => called states active / inactive / "
+             "active set = resolved target at the end of that transition, never Queued on an idle machine. CanAdd/CanRemove are checked for "
+             "no change of time/queue tick/states and for predicting the same mutation issued next. Disposed, backing-off and over-queue-limit "
+             "machines must cancel with no transition.",
+        note="Single issuing goroutine on an idle machine; handlers decide from a static table (ignore the check flag); Multi called sets excluded from predictivity. "
+             "Half-applied visibility to concurrent observers is monitored by C01's reader stress.",
+        technique="runtime monitor: caller-boundary record + recording tracer, per-position veto enumeration",
+        engine="seqmach", design_ref="5/C03"),
+    "C07": dict(
+        level="exploration",
+        text="Generated schemas with 1-5 Auto states (Require chains, mutual Remove, Add fans, health states) are driven by mutation histories with all "
+             "handlers recorded; the run is repeated with every single veto on an Auto state's Enter/self/state-state handler that fired, every "
+             "assignment of such vetoes (<=4 positions, sampled beyond) and foreign vetoes. The tracer sequence is judged: an accepted state-changing "
+             "non-health mutation is followed at once by an auto mutation calling exactly the inactive unblocked Auto states; none after auto / unchanged / "
+             "health; each called Auto state ends active unless excused by its own veto, a (transitive) Require that is missing or Removed by a candidate, "
+             "or a Remove by a surviving/candidate state.",
+        note="Which of two mutually Removing Auto states wins is left open; a veto by a handler that does not belong to a called Auto state cancels by the normal rule.",
+        technique="runtime monitor: recording tracer + handler log, veto-assignment enumeration, declarative auto-mutation oracle",
+        engine="seqmach", design_ref="5/C07"),
+    "C14": dict(
+        level="exploration",
+        text="1-8 goroutines issue generated histories (queued, auto, exception, check, canceled mutations; handlers that veto and enqueue follow-ups) on "
+             "machines with 1-3 recording tracers bound through Opts.Tracers, with yields at the queue schedule points. Per tracer: exactly one "
+             "Init->Start->(Finals)->End per transition, never interleaved or concurrent, time chain continuous, time-after = Machine.Time sampled in "
+             "TransitionEnd, canceled/check report no change, last report = final time, all tracers see the same sequence, every processed mutation was announced.",
+        note="Fault-free transitions only; Finals unconstrained for check mutations.",
+        technique="runtime monitor: recording tracers + offline checker over the callback event log",
+        engine="seqmach", design_ref="5/C14"),
 }
 
 NOT_YET = "check not built yet in this round (planned, see DESIGN.md section 5)"
